@@ -328,6 +328,12 @@ retry:
 			}
 
 			if buf.preds[i].dcasNext(i, next, x, false, false) {
+				// A concurrent delete may have marked this level and finished
+				// its cleanup before the link above; unlink the node again.
+				if _, deleted := x.getNext(i); deleted {
+					s.findPath(itm, insCmp, buf, sts)
+					goto finished
+				}
 				break fixThisLevel
 			}
 
